@@ -35,7 +35,8 @@ MANIFEST = dict(
          "let / unit / fn / dimension / struct definitions (decorators one per line, name, readable types as type-annotation trees, echo of the "
          "body and of where-clauses) the echo of every echoable definition is accepted and read back as that definition "
          "with the same decorators and types (tied token-wise to the implementation's echo on generated decorated definitions); "
-         "(4) C15_reassociation_refuted — the excluded class (a sum or product on the right loses its parentheses) is real. "
+         "(4) C15_reassociation_refuted — the (since the repair small) excluded class is real: a chain of plain literals on the "
+         "right of + or × loses its parentheses and is read back re-associated. "
          "NOT proved, checked on the implementation only (echo oracle: interpret, echo, re-interpret the echo in a clone of "
          "the session, compare acceptance, type, value to 1e-12, echo of the echo, and a probe expression): how the readable "
          "types of statements are computed (inference, generalisation), "
@@ -46,7 +47,7 @@ MANIFEST = dict(
          "comparing the tokens of the implementation's echo with the model's print of the intended typed tree) and of "
          "escape/strip in Syntax/StrEsc.v (strip_and_escape is also exercised by the C10 correspondence); the C10 parser model; "
          "the generator's knowledge of how numbat elaborates its fully parenthesised sources. Eight echo defects were repaired by "
-         "fix: commits (phase 3: the echo of let / fn dropped the decorators, so aliases were lost), four are open findings (multi-name dimension types, implicit dimension of a base unit, sum re-association changing the display unit, product "
+         "fix: commits (phase 3: the echo of let / fn dropped the decorators, so aliases were lost), two are open findings (multi-name dimension types, implicit dimension of a base unit; the two re-association findings were repaired in the final phase: product "
          "re-association not a fixed point).",
     technique="Coq proof (echo = concrete syntax tree; well-formedness by induction; reuse of the C10 round-trip theorem) + "
               "printer-model correspondence + metamorphic echo oracle on the real interpreter",
